@@ -504,6 +504,28 @@ pub fn rw_chain(r: &R, e: &Expr) -> Option<String> {
                 }
             };
             let rty = spec.opts.get("rty").map(|t| format!(": {}", t)).unwrap_or_default();
+            if spec.opts.get("result").is_some() {
+                // `.collect::<Result<Vec<_>, E>>()` (std: FromIterator for Result): the items are Results; the first Err stops the
+                // iteration and is the result, otherwise Ok(the Vec of the Ok payloads, in order)
+                if !guards.is_empty() {
+                    r.err("collect into Result with a filter adapter");
+                    return None;
+                }
+                r.note("R2c .collect::<Result<Vec<_>, E>>() -> while loop stopping at the first Err");
+                let ety = spec.opts.get("ety").map(|t| format!(": Option<{}>", t)).unwrap_or_default();
+                s.push_str(&format!("    let mut {}{} = Vec::new();\n    let mut {}_err{} = None;\n", res, rty, res, ety));
+                s.push_str(&format!(
+                    "    {attr}\n    while {res}_err.is_none() && {i} < {n}\n        invariant {auto},\n{inv}\n        decreases ({n} - {i}) + (if {res}_err.is_none() {{ 1int }} else {{ 0int }}),\n    {{\n",
+                    attr = loop_attr, res = res, i = i, n = n, auto = auto_inv, inv = inv_user
+                ));
+                for l in &b {
+                    s.push_str(&format!("        {}\n", l));
+                }
+                s.push_str(&format!("        match {} {{ Ok(qx_ok) => {{ {}.push(qx_ok); {} = {} + 1; }} Err(qx_e) => {{ {}_err = Some(qx_e); }} }}\n", item, res, i, i, res));
+                s.push_str(&pend);
+                s.push_str(&format!("    }}\n    {}match {}_err {{ Some(qx_e) => Err(qx_e), None => Ok({}) }}\n}})", pafter, res, res));
+                return Some(s);
+            }
             s.push_str(&format!("    let mut {}{} = Vec::new();\n", res, rty));
             s.push_str(&format!(
                 "    {attr}\n    while {i} < {n}\n        invariant {auto},\n{inv}\n        decreases {n} - {i},\n    {{\n",
@@ -718,7 +740,7 @@ pub fn rw_option(r: &R, e: &Expr) -> Option<String> {
             let b = r.expr(&cl.body);
             // `map_or_result="<receiver text>|..."`: receivers that are Results (std: Result::map_or(default, f) = match { Ok(v) => f(v), Err(_) => default })
             let recv_src = norm_ws(&r.verb(mc.receiver.span()));
-            let is_result = r.opts.get("map_or_result").map(|l| l.split('|').any(|t| norm_ws(t) == recv_src)).unwrap_or(false);
+            let is_result = r.opts.get("map_or_result").map(|l| l == "*" || l.split('|').any(|t| norm_ws(t) == recv_src)).unwrap_or(false);
             if is_result {
                 r.note("R3 Result::map_or -> match");
                 return Some(format!("(match {} {{ Ok({}) => {}, Err(_) => {} }})", recv, p, b, d));
